@@ -1551,7 +1551,7 @@ fn main() {
                 Some(d) if memok(d) => src_regimm,
                 _ => false,
             };
-            let alu6 = ["add", "sub", "cmp", "and", "or", "xor"].contains(&f.mnem.as_str());
+            let alu6 = ["add", "sub", "cmp", "and", "or", "xor", "adc", "sbb"].contains(&f.mnem.as_str());
             let mirrored = (f.class == "mov" && two_op_shape)
                 || (f.class == "alu" && alu6 && two_op_shape)
                 || (f.class == "unary" && ["inc", "dec"].contains(&f.mnem.as_str()) && o0.map_or(false, |d| regop(d) || memok(d)))
